@@ -54,6 +54,10 @@ func c11run(c *Sexp, threads int) *Sexp {
 	if err != nil {
 		return L(KV("panic", A("build: "+err.Error())))
 	}
+	// the commands index the reference tree before calling the library
+	if err := ref.ReinitIndexes(); err != nil {
+		return L(KV("panic", A("reinit: "+err.Error())))
+	}
 	// number the branches as the Newick reader does (TBE indexes arrays by Edge.Id)
 	for i, e := range ref.Edges() {
 		e.SetId(i)
